@@ -254,9 +254,6 @@ pub fn run(ctx: &Ctx) -> (Spec, Report) {
         args.push("--output-file".into());
         args.push(out.to_string_lossy().into_owned());
         args.push("src_root".into());
-        let o = run_bin(BinRun { cli: &cli, args: args.clone(), env: vec![], cwd: &cwd, strace: None, wall_limit: Duration::from_secs(30) });
-        rep.eval(1);
-        rep.count("cli_runs", 1);
         let mut eff = effective(c);
         if discovery == "none" {
             // no file at all: only the command line counts
@@ -267,6 +264,19 @@ pub fn run(ctx: &Ctx) -> (Spec, Report) {
             only_cli.file_only = LangCfg::default();
             eff = effective(&only_cli);
         }
+        let expected = run_lib(&[SrcFile { path: "src_root/my_crate/src/lib.rs".into(), source: SOURCE.into() }], c.lang, &eff, false, &[]);
+        // every other cell finds an output left by an earlier run under other settings of the same length (a two-letter
+        // prefix replaced by another, `com.a` by `org.b`): what is generated now must not depend on it
+        if i % 2 == 1 {
+            if let Some(want) = expected.single() {
+                let stale: String = want.chars().map(|ch| if ch.is_ascii_alphabetic() { if ch.to_ascii_lowercase() == 'z' { 'a' } else { (ch as u8 + 1) as char } } else { ch }).collect();
+                std::fs::write(&out, stale).unwrap();
+                rep.count("cells_with_a_stale_output_of_equal_length", 1);
+            }
+        }
+        let o = run_bin(BinRun { cli: &cli, args: args.clone(), env: vec![], cwd: &cwd, strace: None, wall_limit: Duration::from_secs(30) });
+        rep.eval(1);
+        rep.count("cli_runs", 1);
         let lname = c.lang.name();
         let cls = |d: &Dual| match (&d.cli, &d.file) {
             (None, None) => "neither",
@@ -276,7 +286,6 @@ pub fn run(ctx: &Ctx) -> (Spec, Report) {
         };
         rep.cell(format!("{lname}|prefix={}|package={}|module={}|{}", cls(&c.prefix), cls(&c.package), cls(&c.module_name), discovery.trim_end_matches(char::is_numeric)));
         let detail = |extra: serde_json::Value| json!({"language": lname, "args": args, "cwd": cwd, "config_discovery": discovery, "config_file": toml, "effective_expected": eff.to_json(), "exit": format!("{:?}", o.exit), "stderr": o.stderr.chars().take(600).collect::<String>(), "extra": extra});
-        let expected = run_lib(&[SrcFile { path: "src_root/my_crate/src/lib.rs".into(), source: SOURCE.into() }], c.lang, &eff, false, &[]);
         match (&expected, &o.exit) {
             (LibOutcome::Panic { .. }, _) => {
                 // e.g. Scala without any package: the panic is C07's finding
@@ -478,7 +487,7 @@ pub fn run(ctx: &Ctx) -> (Spec, Report) {
     let _ = std::fs::remove_dir_all(&scratch);
     let spec = Spec {
         level: "exploration",
-        rule: format!("{} cells of the real binary: for each language the full {{absent, present}} x {{absent, present}} matrix on the command line x in the file for every dual option (swift-prefix; kotlin-prefix x java-package x module-name; scala-package x scala-module-name; go-package), combined with random file-only tables (type_mappings, default_decorators, default_generic_constraints, codablevoid_constraints, uppercase_acronyms, no_pointer_slice), the config found by -c, by ancestor search from cwd depth 0-3, or absent, half of the runs with a second, losing configuration (one or two levels further up the ancestor chain, or in the working directory when -c names another file); oracle: output bytes equal the library pipeline run with cli ?? file ?? default; plus {n_g} generate-config runs (random option subsets, default and explicit path): behavioural round trip for all 6 languages and a second -g under strace that must fail without touching the file; distinct = (language, per-option source, discovery)", cells.len()),
+        rule: format!("{} cells of the real binary: for each language the full {{absent, present}} x {{absent, present}} matrix on the command line x in the file for every dual option (swift-prefix; kotlin-prefix x java-package x module-name; scala-package x scala-module-name; go-package), combined with random file-only tables (type_mappings, default_decorators, default_generic_constraints, codablevoid_constraints, uppercase_acronyms, no_pointer_slice), the config found by -c, by ancestor search from cwd depth 0-3, or absent, half of the runs with a second, losing configuration (one or two levels further up the ancestor chain, or in the working directory when -c names another file); every other cell starting over an output of equal length left by other settings; oracle: output bytes equal the library pipeline run with cli ?? file ?? default; plus {n_g} generate-config runs (random option subsets, default and explicit path): behavioural round trip for all 6 languages and a second -g under strace that must fail without touching the file; distinct = (language, per-option source, discovery)", cells.len()),
         assumptions: vec![
             "the library driver's construction of backend structs from a configuration mirrors cli/src/main.rs::language()".into(),
             "Scala without any package panics and Go without any package is refused: both are accepted outcomes here (the panic is C07's)".into(),
